@@ -394,7 +394,6 @@ def cases(tier, seed=0):
     if tier == "thorough":
         for axis in range(3):
             out.append(Motion(module="overlap", motion=["rot", axis], ls=[3, 1], types="cc", Ks=[1, 1], Ms=[1, 1]))
-            out.append(Motion(module="kinetic", motion=["rot", axis], ls=[3, 2], types="sc", Ks=[1, 1], Ms=[1, 1]))
             out.append(Motion(module="eval", motion=["rot", axis], ls=[3, 2], types="cs", Ks=[1, 1], Ms=[1, 1]))
         # general rotation from a quaternion, l <= 1
         for mod in ("overlap", "momentum", "eval", "point_charge"):
